@@ -6,7 +6,12 @@ Tie (D): the real `diffs.diff`, `diffs.reduce`, `DiffBaseStorage.build` (+ subcl
 Oracle (Python only, never consults the model): apply the diff to old with an own applier and compare
 with new; "empty iff nothing essential differs"; the essence is unchanged by kopf's own writes (taken
 from the real `store/purge/touch`, `diffbase.store`, `finalizers.block_deletion/allow_deletion`,
-applied with an own RFC 7386 merge) and changed by single foreign edits of spec/labels/annotations.
+applied with an own RFC 7386 merge) and changed by single foreign edits of spec/labels/annotations; what is configured to be
+excluded (ignored_fields of the storage and of every nested storage, the storages' own fields) is not in the essence; the order
+of the nested storages of a MultiDiffBaseStorage does not matter; the closed loop (store the last-handled state, take the patched
+object as the next event) is a no-op on every configuration. A failure is attributed to an OPEN finding only if that finding can
+explain it (F8 never explains a change AT a storage's own status field / exact annotation key: those are cleaned after the
+handlers' fields are restored); failures are kept per class (FAIL_PER_CLASS), so a frequent known class never crowds out another.
 """
 from __future__ import annotations
 
@@ -45,6 +50,14 @@ LEVEL_TEXT = (
     "(AvoidKey), label_exact / annotation_exact / label_change_detected / ordinary_annotation_change_detected (MetaPlain), "
     "own_key_unmarked_invisible_partial (MetaPlain, kind present, annotations present before the write; every diff-base "
     "configuration incl. Multi after 55b75e2, instance multi_drs_own_key_invisible = former C04-F9). "
+    "Every diff-base configuration incl. MultiDiffBaseStorage with ANY list of nested storages in ANY order, whatever the handlers' "
+    "fields: nested_own_writes_cleaned_partial (the own field of every nested StatusDiffBaseStorage and every annotation name make_keys "
+    "forms for the real body for every nested AnnotationsDiffBaseStorage are ABSENT from the essence — `build` only removes, each nested "
+    "build refines the previous essence, the pseudo-body adds back only kind/ownerReferences; guard PseudoApart: the location is not "
+    "kind…/metadata/metadata.ownerReferences…; `_partial` because the kopf-managed marker written along IS restored by a handler on "
+    "metadata.annotations = F8, multi_marker_restored_witness), nested_ignored_fields_cleaned (ignored_fields of EVERY nested storage), "
+    "multi_cleaning_order_independent (both hold for every permutation of the nested storages), instance "
+    "multi_transitional_store_invisible (docs' Multi([Status, Annotations]) with handlers on status and metadata.annotations). "
     "Oracle/tie only (NO theorem): the composition fetch∘store (`diff(clear(fetch(body')), clear(build(body')))` after a real "
     "store/purge/touch: key names, marker and merge are modelled, the JSON encoding is not), what handlers receive in a cycle "
     "(real process_resource_causes with several handlers, field= and whole-object mixed, all lifecycles), statelessness of the "
@@ -61,7 +74,11 @@ RULE = ("seeded, type-directed: Kubernetes-shaped bodies (nesting <= 5, empty co
         "(or independent), field paths taken from either side or random; storage configurations from the real "
         "constructors x handler ids x own writes (incl. another Kopf operator's) x single foreign edits; sequences: one shared "
         "diff-base + progress storage serving Deployment / its ReplicaSet (annotations copied down) / plain object / other "
-        "ReplicaSet in random orders, each compared with a fresh storage; a case is distinct by its canonical input and "
+        "ReplicaSet in random orders, each compared with a fresh storage; MultiDiffBaseStorage cases of their own: 2-3 nested "
+        "storages in every order (status-based first/middle/last/absent/twice, annotations with different prefixes and keys, "
+        "ignored_fields on nested storages), handler fields that do / do not cover the nested storages' own locations, bodies "
+        "carrying the nested storages' stored states, all orders of the nested storages compared, and on EVERY configuration the "
+        "closed loop store -> next event -> must be a no-op (3 rounds); a case is distinct by its canonical input and "
         "non-trivial when the diff is non-empty / the essence dropped or kept something / an error branch was hit")
 TRUSTED = ["harness/props/c04.py: the Python oracle (own applier, own RFC 7386 merge, strict JSON equality)",
            "the configuration of the model is read off the real storage objects' attributes (prefix, key, v1, field, ignored_fields)",
@@ -77,6 +94,13 @@ ASSUMPTIONS = ["numbers are integers (no floats in generated bodies)",
                "added @on.field) gives a spurious update (observation)",
                "label_exact/annotation_exact/…_change_detected and own_key_unmarked_invisible_partial assume MetaPlain: no handler "
                "field and no ignored/storage field starts with `metadata` (otherwise oracle + tie only)",
+               "nested_own_writes_cleaned_partial / nested_ignored_fields_cleaned / multi_cleaning_order_independent assume PseudoApart for "
+               "status and ignored fields: the location is not kind…, metadata as a whole, or metadata.ownerReferences… (the pseudo-body of "
+               "MultiDiffBaseStorage.build re-adds exactly these); they state ABSENCE of the location from the essence, the kopf-managed "
+               "marker is not covered (F8, multi_marker_restored_witness)",
+               "an oracle failure is attributed to the open finding F8 only when no changed location of the essence is at/under a location "
+               "the storage's own store/purge/touch wrote (marker excepted); the order-of-nested-storages oracle compares only when every "
+               "order builds without an exception (an ignored `status` before/after a status storage on a scalar status may raise in one order only)",
                "the shared-storage sequence oracle compares with a fresh storage per object: it sees state carried between objects, "
                "not a defect present in fresh and shared storages alike (those are the per-body oracle's subject)"]
 
@@ -93,11 +117,14 @@ THEOREM_NAMES = [
     "payload_exact", "essence_injective_on_payload", "essence_wf",
     "change_detected", "payload_change_detected", "label_exact", "annotation_exact",
     "label_change_detected", "ordinary_annotation_change_detected",
+    "nested_own_writes_cleaned_partial", "nested_ignored_fields_cleaned", "multi_cleaning_order_independent",
+    "multi_transitional_store_invisible", "multi_marker_restored_witness",
 ]
 
 QUICK_PAIRS, THOROUGH_PAIRS = 5000, 300000
 SHARD = 2500            # pairs per shard
 ESS_RATIO = 0.35        # essence cases per diff pair
+MULTI_RATIO = 0.3       # dedicated MultiDiffBaseStorage cases per essence case (beside the ~18 % multi among those)
 
 # ------------------------------------------------------------------------------------------------
 # JSON helpers that belong to the oracle (independent of Lean and of kopf)
@@ -409,7 +436,7 @@ def gen_path(rng: random.Random, a: Any, b: Any) -> list[str]:
 # ------------------------------------------------------------------------------------------------
 # storage configurations (real constructors) and their description for the model
 
-KEYS = ["last-handled-configuration", "lhc", "k" * 64, "with/slash<x>", "a" * 63, "b" * 40]
+KEYS = ["last-handled-configuration", "lhc", "k" * 64, "with/slash<x>", "a" * 63, "b" * 40, "_lhc", "lhc/", "lambda:x:1", "-" + "k" * 64]
 IGNORED = [[], [], [], ["spec.ignored"], ["spec.field", "metadata.labels.tier"], ["status"], ["data"], [["spec", "k.dot"]],
            ["spec.a.b.c"], ["metadata.annotations.plain"]]
 HIDS = ["create_fn", "update_fn/spec.field", "fn/sub1/sub2", "h" * 70, "on_field/metadata.labels", "a<b>c", "ключ"]
@@ -541,7 +568,7 @@ def make_suffix(key: str) -> str:
 
 
 def safe_key(key: str) -> str:
-    return key.replace("/", ".").replace("<", "_").replace(">", "_")
+    return key.replace("/", ".").replace("<", "_").replace(">", "_").replace(":", "_")
 
 
 def model_diffleaf(K: dict, s: Any, hashes: dict) -> dict:
@@ -634,6 +661,47 @@ def leaf_paths(x: Any, prefix: tuple = ()) -> list[list[str]]:
     return [list(prefix)]
 
 
+def changed_paths(a: Any, b: Any, prefix: tuple = ()) -> list[list[str]]:
+    """The oracle's own differ: the leaf-level paths at which two JSON values differ (strictly)."""
+    if isinstance(a, dict) and isinstance(b, dict):
+        out: list[list[str]] = []
+        for k in list(a) + [k for k in b if k not in a]:
+            if k not in b:
+                out.extend(leaf_paths(a[k], prefix + (k,)))
+            elif k not in a:
+                out.extend(leaf_paths(b[k], prefix + (k,)))
+            else:
+                out.extend(changed_paths(a[k], b[k], prefix + (k,)))
+        return out
+    return [] if strict_eq(a, b) else [list(prefix)]
+
+
+def has_path(x: Any, path: list) -> bool:
+    for k in path:
+        if not isinstance(x, dict) or k not in x:
+            return False
+        x = x[k]
+    return True
+
+
+STORAGE_WRITES = ("progress.store", "progress.purge", "touch", "touch-clear", "diffbase.store")
+
+
+def own_locations(w: dict, written: list[list[str]]) -> list[list[str]]:
+    """The locations a storage's own write (store/purge/touch) went to, the `kopf-managed` marker excepted:
+    every storage removes these itself AFTER the handlers' fields were restored into the essence
+    (Status*: dicts.remove of the field; Annotations*: remove_annotations of its exact keys / of its prefix),
+    so the open finding F8 (a handler field restores a location the framework writes) cannot explain a
+    change of the essence AT such a location."""
+    if w.get("w") not in STORAGE_WRITES:
+        return []
+    return [p for p in written if p and not (p[:2] == ["metadata", "annotations"] and len(p) == 3 and p[2].endswith("/kopf-managed"))]
+
+
+def at_own_location(changed: list[list[str]], own: list[list[str]]) -> list[list[str]]:
+    return [cp for cp in changed if any(cp[:len(ol)] == ol for ol in own)]
+
+
 def is_marked_prefix(prefix: str, names_under: list[str]) -> bool:
     """The documented convention: a prefix belongs to a Kopf-based operator when it carries the
     `kopf-managed` marker, is `kopf.zalando.org`, or is a sub-domain of it."""
@@ -665,6 +733,13 @@ SIG_N3 = {"site": "StatusProgressStorage.clear", "shape": "touch_field is not re
 SIG_F11 = {"site": "StorageKeyMarkingConvention._store_marker",
            "shape": "the first marker write hides a foreign annotation under the operator's own prefix"}
 SIG_F8 = {"site": "DiffBaseStorage.build", "shape": "extra field restores an own storage location"}
+SIG_OWNLOC = {"site": "DiffBaseStorage.build/ProgressStorage.clear",
+              "shape": "a storage's own location (its status field / its exact annotation keys) is in the essence"}
+SIG_IGNORED = {"site": "DiffBaseStorage.build", "shape": "an ignored field (ignored_fields of the storage or of a nested storage) is in the essence"}
+SIG_ORDER = {"site": "MultiDiffBaseStorage.build", "shape": "the essence depends on the order of the nested storages"}
+
+
+FAIL_PER_CLASS = 5
 
 
 class Out:
@@ -676,6 +751,7 @@ class Out:
         self.samples: list = []
         self.hist: dict[str, dict[str, int]] = {}
         self.fails: list = []            # (kind, what, replay, signature)
+        self.fail_classes: dict[str, int] = {}   # failures SEEN per class (kept: at most FAIL_PER_CLASS of each)
         self.requests: list = []
         self.expect: list = []           # (what, impl, replay)  — aligned with requests
         self.cmp = 0
@@ -685,7 +761,13 @@ class Out:
         g[str(tag)] = g.get(str(tag), 0) + n
 
     def fail(self, kind: str, what: str, replay: Any, sig: dict | None = None) -> None:
-        if len(self.fails) < 200:
+        # At most FAIL_PER_CLASS failures are kept per class (kind + signature, or kind + text): a frequent class
+        # (e.g. the open finding F10 among the diff pairs) must never use up the room of another one. (A single
+        # global cap of 200 did exactly that until the seeded change C04d: the tie failures, found last, were dropped.)
+        cls = kind + "|" + (leanio.canon(sig) if sig else what)
+        n = self.fail_classes.get(cls, 0)
+        self.fail_classes[cls] = n + 1
+        if n < FAIL_PER_CLASS:
             self.fails.append((kind, what, replay, sig))
 
     def ask(self, what: str, req: list, impl: Any, replay: Any) -> None:
@@ -783,6 +865,75 @@ def gen_ess_case(rng: random.Random) -> dict:
 
 
 OTHER_PREFIXES = ["kopf.dev", "kopf.io", "other-op.example.org", "other.kopf.zalando.org", "x.y", "kopf.example.com"]
+
+# ---- MultiDiffBaseStorage: 2-3 nested storages in every order -------------------------------------
+
+MULTI_STATUS_FIELDS = ["status.diff-base", "status.{name}.last-handled-configuration", "status.lhc", ["status", "k.dot"], "status.kopf.lhc2"]
+MULTI_ANN = [{"prefix": "kopf.zalando.org", "key": "last-handled-configuration"}, {}, {"prefix": "my-op.example.com"},
+             {"prefix": "kopf.dev", "key": "lhc"}, {"prefix": "x", "key": "with/slash<x>"}, {"prefix": "op.kopf.zalando.org", "key": "k" * 64},
+             {"prefix": "my-op.example.com", "key": "_lhc"}, {"prefix": "zalando.org", "key": "lhc/"}]
+MULTI_IGNORED = [["spec.replicas"], ["spec.ignored"], ["spec.field"], ["data"], [["spec", "k.dot"]], ["metadata.labels.tier"],
+                 ["spec.a.b"], ["spec.field", "spec.n"], ["rules"]]
+MULTI_SHAPES = ["SA", "AS", "SAA", "ASA", "AAS", "AA", "AAA", "SS", "SSA", "SAS", "ASS"]
+
+
+def gen_multi_case(rng: random.Random) -> dict:
+    """A MultiDiffBaseStorage of 2-3 nested storages (status-based first / middle / last / absent / twice; annotations
+    with different prefixes and keys; ignored_fields on nested storages), handlers' fields that do / do not cover the
+    locations the nested storages write, a body that carries the nested storages' own stored states (the writes start
+    with a real store) — the docs' transitional set-up `Multi([Status(field='status.diff-base'), Annotations()])` among them."""
+    shape = rng.choice(MULTI_SHAPES) if rng.random() < 0.85 else "SA"
+    storages: list[dict] = []
+    sfields = rng.sample(MULTI_STATUS_FIELDS, 2)
+    anns = rng.sample(MULTI_ANN, 3)
+    for ch in shape:
+        if ch == "S":
+            kw: dict[str, Any] = {"field": sfields.pop()}
+            if rng.random() < 0.3:
+                kw["name"] = "myop"
+            cls = "status"
+        else:
+            kw = dict(anns.pop())
+            if rng.random() < 0.25:
+                kw["v1"] = rng.random() < 0.5
+            cls = "annotations"
+        if rng.random() < 0.45:
+            kw["ignored_fields"] = rng.choice(MULTI_IGNORED)
+        storages.append({"cls": cls, "kw": kw})
+    if shape == "SA" and rng.random() < 0.3:            # exactly the transitional set-up of docs/configuration.rst
+        storages = [{"cls": "status", "kw": {"field": "status.diff-base"}},
+                    {"cls": "annotations", "kw": {"prefix": "kopf.zalando.org", "key": "last-handled-configuration"}}]
+    # handlers' fields: covering the nested storages' own locations, or not
+    covering: list = []
+    for st in storages:
+        if st["cls"] == "status":
+            f = st["kw"]["field"]
+            fp = parse_field(f.format(name=st["kw"].get("name", "kopf")) if isinstance(f, str) else f)
+            covering += ["status", fp, fp[:-1]] if len(fp) > 2 else ["status", fp]
+        else:
+            covering += ["metadata.annotations", "metadata"]
+    r = rng.random()
+    if r < 0.45:
+        extra = [rng.choice(covering)] + rng.sample(EXTRAS_SAFE, rng.choice([0, 1]))
+        cover = "covers an own location"
+    elif r < 0.8:
+        extra = rng.sample(EXTRAS_SAFE, rng.choice([1, 2]))
+        cover = "does not cover"
+    else:
+        extra, cover = [], "no handler fields"
+    body = gen_body(rng)
+    if rng.random() < 0.7 and not isinstance(body.get("status"), dict):
+        body["status"] = {"state": "ok"}
+    if isinstance(body.get("spec"), dict) and rng.random() < 0.6:
+        body["spec"].update({"replicas": rng.choice([1, 2, 3]), "ignored": "x", "field": rng.choice(["v", 1]), "n": 1})
+    writes: list[dict] = [{"w": "diffbase.store"}]
+    own_p = [st["kw"].get("prefix", "kopf.zalando.org") for st in storages if st["cls"] == "annotations"]
+    writes += [w for w in gen_writes(rng, None, own_p) if w["w"] != "adopt"][:rng.choice([0, 1, 2, 3])]
+    if rng.random() < 0.5:
+        writes.append({"w": "diffbase.store"})
+    prog = gen_progress_spec(rng) if rng.random() < 0.6 else {"cls": "smart", "kw": {}}
+    return {"diffbase": {"cls": "multi", "storages": storages}, "progress": prog, "extra": extra, "body": body,
+            "wseed": rng.getrandbits(48), "writes": writes, "multi_gen": {"shape": shape, "cover": cover}}
 
 
 def gen_writes(rng: random.Random, body: dict | None = None, own: list[str] | None = None) -> list[dict]:
@@ -952,6 +1103,26 @@ def eval_ess_case(K: dict, case: dict, out: Out) -> None:
     out.count("progress_cls", case["progress"]["cls"])
     out.count("essence_result", res[0] if res[0] == "ok" else res[1])
     out.count("extra_fields", len(extra))
+    if case["diffbase"]["cls"] == "multi":
+        kinds = "".join("S" if st["cls"] == "status" else "A" for st in case["diffbase"]["storages"])
+        out.count("multi_shape", kinds or "(empty)")
+        spos = [i for i, ch in enumerate(kinds) if ch == "S"]
+        out.count("multi_status_position", "none" if not spos else "several" if len(spos) > 1 else
+                  "only" if len(kinds) == 1 else "first" if spos[0] == 0 else "last" if spos[0] == len(kinds) - 1 else "middle")
+        out.count("multi_nested_with_ignored_fields", sum(1 for st in case["diffbase"]["storages"] if st["kw"].get("ignored_fields")))
+        out.count("multi_annotation_prefixes", len({st["kw"].get("prefix", "(default)") for st in case["diffbase"]["storages"]
+                                                     if st["cls"] == "annotations"}))
+        own_locs_cfg = [list(x.field) for x in ds.storages if isinstance(x, K["diffbase"].StatusDiffBaseStorage)]
+        covers = [("status field" if any(overlaps(parse_field(x), ol) for ol in own_locs_cfg) else None) for x in extra] + \
+                 [("annotations" if overlaps(parse_field(x), ["metadata", "annotations"]) and
+                   any(isinstance(y, K["diffbase"].AnnotationsDiffBaseStorage) for y in ds.storages) else None) for x in extra]
+        out.count("multi_handler_fields", "+".join(sorted({c for c in covers if c})) or ("none cover an own location" if extra else "no handler fields"))
+        metab0 = body.get("metadata") if isinstance(body.get("metadata"), dict) else {}
+        anns0 = metab0.get("annotations") if isinstance(metab0.get("annotations"), dict) else {}
+        carried = any(has_path(body, ol) for ol in own_locs_cfg) or any(
+            k in anns0 for y in ds.storages if isinstance(y, K["diffbase"].AnnotationsDiffBaseStorage)
+            for k in (f"{y.prefix}/{y.key}", f"{y.prefix}/{y.key}-ofDRS"))
+        out.count("multi_body_carries_stored_state", bool(carried) or bool(case.get("writes") and case["writes"][0].get("w") == "diffbase.store"))
     if leanio.canon(body) != before:
         out.fail("oracle", "build/clear modified the body it was given", replay, {"site": "DiffBaseStorage.build", "shape": "mutates-body"})
     out.ask("diffbase.build + progress.clear", ["C04.essence", mcfg, mextra, body], res, replay)
@@ -994,52 +1165,156 @@ def eval_ess_case(K: dict, case: dict, out: Out) -> None:
     out.ask("progress.clear", ["C04.clear", mcfg["progress"], E], _clear(ps, E), replay)
     own = own_annotation_prefixes(K, ds, ps)
     rng = random.Random(case["wseed"])
+    # ---- oracle 0: what is configured to be excluded IS excluded -----------------------------------
+    # ignored_fields of the storage and of EVERY nested storage, and the own field of every StatusDiffBaseStorage,
+    # are absent from the essence, whatever the handlers' fields (they are removed after the restoring).
+    for ipath in ignored_paths(K, ds):
+        if ipath and has_path(E, ipath):
+            out.fail("oracle", f"the field {'.'.join(ipath)} is configured to be excluded (ignored_fields / the storage's own field) "
+                               f"but is in the essence: its changes count as essential changes",
+                     dict(replay, essence=E, excluded_field=ipath), SIG_IGNORED)
+            break
+    # ---- oracle 0b: the order of the nested storages does not matter ---------------------------------
+    if case["diffbase"]["cls"] == "multi" and 2 <= len(case["diffbase"]["storages"]) <= 3:
+        import itertools
+        perms = list(itertools.permutations(range(len(case["diffbase"]["storages"]))))[1:]
+        results = []
+        for pm in perms:
+            spec_p = {"cls": "multi", "storages": [case["diffbase"]["storages"][i] for i in pm]}
+            results.append((pm, real_essence(K, build_diffbase(K, spec_p), ps, body, extra)))
+        if all(r[0] == "ok" for _pm, r in results):
+            out.count("multi_order", f"{len(perms) + 1} orders compared")
+            for pm, r in results:
+                if not strict_eq(r[1], E):
+                    out.fail("oracle", "MultiDiffBaseStorage: the essence depends on the order of the nested storages "
+                                       "(some nested storage's cleaning is lost)",
+                             dict(replay, essence=E, order=list(pm), essence_reordered=r[1]), SIG_ORDER)
+                    break
+        else:
+            out.count("multi_order", "some order raises (not compared)")
     # ---- oracle 1: own writes are invisible ------------------------------------------------------
     squatting = [k for k in eanns if any(k.startswith(p + "/") for p in own)]
     cur = body
     stored = False
+    failed = False
     if squatting:
         out.count("own_writes", "with a foreign annotation under an own prefix")
-    if True:
-        for w in (case.get("writes") or gen_writes(rng, body, own)):
+
+    def attribute(w: dict, written: list, before: dict, after: dict, e_ref: Any, res_after: list, old: Any) -> dict:
+        """Which known defect (if any) explains that this write changed the essence / the fetched old state."""
+        changed = changed_paths(e_ref, res_after[1]) if res_after[0] == "ok" else []
+        if res_after[0] == "ok" and old is not None:
+            changed += changed_paths(old, res_after[1])
+        hit = at_own_location(changed, own_locations(w, written))
+        if hit:
+            # no exemption: every storage cleans its own locations after the handlers' fields were restored
+            return classify_own(K, case, ds, ps, after, w, SIG_OWNLOC)
+        if any(overlaps(parse_field(x), wp) for x in extra for wp in written):
+            return SIG_F8
+        if w["w"] == "other-operator":
+            if any(k.startswith(w["prefix"] + "/") for k in eanns) if "prefix" in w else False:
+                return SIG_F11          # the other operator's first marker write hides what was visible under ITS prefix
+        elif squatting:
+            return SIG_F11
+        if w["w"] == "adopt" and changed and res_after[0] == "ok":
             try:
-                nb, written = apply_write(K, ds, ps, cur, w, E)
-            except tuple(ERRS) as ex:
-                out.count("own_writes", f"{w['w']}: raised {type(ex).__name__}")
-                break
-            out.count("own_writes", w["w"] + ("" if written else " (empty patch)"))
-            res2 = real_essence(K, ds, ps, nb, extra)
-            out.ask("diffbase.build + progress.clear (after an own write)", ["C04.essence", mcfg, mextra, nb], res2,
-                    dict(replay, write=w, body=nb))
-            overlap = any(overlaps(parse_field(x), wp) for x in extra for wp in written)
-            rp = dict(replay, write=w, body_before=cur, body_after=nb, essence_before=E, essence_after=res2)
-            bad = res2[0] != "ok" or not strict_eq(res2[1], E)
-            old = None
-            if not bad and w["w"] == "diffbase.store":
+                B = K["bodies"].Body
+                leaves = ds.storages if isinstance(ds, K["diffbase"].MultiDiffBaseStorage) else [ds]
+                names = {k for l in leaves if isinstance(l, K["diffbase"].AnnotationsDiffBaseStorage)
+                         for bd in (before, after) for k in l.make_keys(l.key, body=B(bd))}
+                if all(cp[:2] == ["metadata", "annotations"] and len(cp) == 3 and cp[2] in names for cp in changed):
+                    return SIG_N2       # the names switched: the orphaned record is no longer an own key (restored by a handler field)
+            except tuple(ERRS):
+                pass
+        return classify_own(K, case, ds, ps, after, w)
+
+    for w in (case.get("writes") or gen_writes(rng, body, own)):
+        try:
+            nb, written = apply_write(K, ds, ps, cur, w, E)
+        except tuple(ERRS) as ex:
+            out.count("own_writes", f"{w['w']}: raised {type(ex).__name__}")
+            failed = True
+            break
+        out.count("own_writes", w["w"] + ("" if written else " (empty patch)"))
+        res2 = real_essence(K, ds, ps, nb, extra)
+        out.ask("diffbase.build + progress.clear (after an own write)", ["C04.essence", mcfg, mextra, nb], res2,
+                dict(replay, write=w, body=nb))
+        rp = dict(replay, write=w, body_before=cur, body_after=nb, essence_before=E, essence_after=res2)
+        bad = res2[0] != "ok" or not strict_eq(res2[1], E)
+        old = None
+        if not bad and w["w"] == "diffbase.store":
+            old = ds.fetch(body=K["bodies"].Body(nb))
+            old = ps.clear(essence=old) if old is not None else None
+            if old is None or K["diffs"].diff(old, res2[1]):
+                bad = True
+                rp["fetched_old"] = old
+        if not bad and w["w"] == "diffbase.store":
+            stored = True
+        if not bad and w["w"] == "adopt" and stored:
+            try:
                 old = ds.fetch(body=K["bodies"].Body(nb))
                 old = ps.clear(essence=old) if old is not None else None
-                if old is None or K["diffs"].diff(old, res2[1]):
-                    bad = True
-                    rp["fetched_old"] = old
-            if not bad and w["w"] == "diffbase.store":
-                stored = True
-            if not bad and w["w"] == "adopt" and stored:
-                try:
-                    old = ds.fetch(body=K["bodies"].Body(nb))
-                    old = ps.clear(essence=old) if old is not None else None
-                except (ValueError, AttributeError):
-                    out.count("own_writes", "adopt: the -ofDRS annotation holds garbage (not a stored essence)")
-                    break
-                if old is None or K["diffs"].diff(old, res2[1]):
-                    out.fail("oracle", "after its adoption by a Deployment (ownerReferences only) a handled ReplicaSet has no "
-                                       "last-handled state any more: it is handled as created again", dict(rp, fetched_old=old), SIG_N2)
-                    break
-            if bad:
-                sig = SIG_F8 if overlap else SIG_F11 if (squatting and w["w"] != "other-operator") else classify_own(K, case, ds, ps, nb, w)
-                who = "another Kopf-based operator's write" if w["w"] == "other-operator" else f"the framework's own write ({w['w']})"
-                out.fail("oracle", f"{who} changes the essence / re-triggers handling", rp, sig)
+            except (ValueError, AttributeError):
+                out.count("own_writes", "adopt: the -ofDRS annotation holds garbage (not a stored essence)")
+                failed = True
+                break
+            if old is None or K["diffs"].diff(old, res2[1]):
+                out.fail("oracle", "after its adoption by a Deployment (ownerReferences only) a handled ReplicaSet has no "
+                                   "last-handled state any more: it is handled as created again", dict(rp, fetched_old=old), SIG_N2)
+                failed = True
+                break
+        if bad:
+            sig = attribute(w, written, cur, nb, E, res2, old)
+            who = "another Kopf-based operator's write" if w["w"] == "other-operator" else f"the framework's own write ({w['w']})"
+            out.fail("oracle", f"{who} changes the essence / re-triggers handling", rp, sig)
+            failed = True
+            break
+        cur = nb
+    # ---- oracle 1b: the closed loop -----------------------------------------------------------------
+    # handle -> store the last-handled state -> the patched object comes back as the next event: it must be a no-op
+    # (old == new, nothing to store again), round after round, on EVERY storage configuration.
+    if not failed and not any(w_.get("w") == "adopt" for w_ in (case.get("writes") or [])):
+        B, P = K["bodies"].Body, K["patches"].Patch
+        rounds = 0
+        for rnd in range(3):
+            r0 = real_essence(K, ds, ps, cur, extra)
+            if r0[0] != "ok":
+                break
+            patch = P()
+            try:
+                ds.store(body=B(cur), patch=patch, essence=copy.deepcopy(r0[1]))
+            except tuple(ERRS):
+                break
+            pj = json.loads(json.dumps(dict(patch)))
+            nb = merge_patch(cur, pj)
+            written = leaf_paths(pj) if pj else []
+            r1 = real_essence(K, ds, ps, nb, extra)
+            try:
+                old = ds.fetch(body=B(nb))
+                old = ps.clear(essence=old) if old is not None else None
+            except (ValueError, AttributeError):
+                out.count("closed_loop", "a stored-state location holds garbage (not a stored essence)")
+                break
+            rounds += 1
+            wl = {"w": "diffbase.store"}
+            rp = dict(replay, closed_loop_round=rnd, write=wl, body_before=cur, body_after=nb, essence_before=r0[1],
+                      essence_after=r1, fetched_old=old)
+            what = None
+            if r1[0] != "ok" or not strict_eq(r1[1], r0[1]):
+                what = "storing the last-handled state changes the essence: the next event is an update again (self-trigger)"
+            elif old is None:
+                what = "the stored last-handled state is not found in the next event: the object is created again"
+            elif K["diffs"].diff(old, r1[1]):
+                what = "the next event after storing the last-handled state shows a non-empty diff (self-trigger)"
+            # (a re-store need not be byte-identical: the encoded essence may list its keys in another order; what must not
+            #  happen is a change of the essence or a non-empty diff against the fetched state — the two conditions above.
+            #  In the real flow a no-op cause stores nothing.)
+            if what:
+                out.fail("oracle", f"closed loop, round {rnd + 1}: {what}", rp, attribute(wl, written, cur, nb, r0[1], r1, old))
                 break
             cur = nb
+        out.count("closed_loop", f"{rounds} rounds")
+        out.count("closed_loop_cfg", case["diffbase"]["cls"] + ("" if not extra else " + handler fields"))
     # ---- oracle 2: a single foreign edit of payload / labels / ordinary annotations counts ------
     ig = ignored_paths(K, ds) + status_clean_paths(K, ps)
     for _ in range(2):
@@ -1071,7 +1346,7 @@ def _clear(ps: Any, e: Any) -> list:
 SIG_F9 = {"site": "MultiDiffBaseStorage.build", "shape": "nested build takes the essence for the body: the -ofDRS key mark is lost"}
 
 
-def classify_own(K: dict, case: dict, ds: Any, ps: Any, body: dict, w: dict) -> dict:
+def classify_own(K: dict, case: dict, ds: Any, ps: Any, body: dict, w: dict, default: dict | None = None) -> dict:
     if w["w"] == "other-operator" and w["prefix"].startswith("kopf.") and not is_marked_prefix(w["prefix"], []):
         return SIG_N1
     if w["w"] in ("touch", "touch-clear"):
@@ -1085,7 +1360,7 @@ def classify_own(K: dict, case: dict, ds: Any, ps: Any, body: dict, w: dict) -> 
     drs = body.get("kind") == "ReplicaSet" and any(isinstance(o, dict) and o.get("kind") == "Deployment" for o in owners)
     if case["diffbase"]["cls"] == "multi" and drs and w["w"] == "diffbase.store":
         return SIG_F9
-    return {"site": "DiffBaseStorage.build/ProgressStorage.clear", "shape": f"own write visible: {w['w']}"}
+    return default or {"site": "DiffBaseStorage.build/ProgressStorage.clear", "shape": f"own write visible: {w['w']}"}
 
 
 # ------------------------------------------------------------------------------------------------
@@ -1379,6 +1654,8 @@ def run_shard(args: tuple) -> Out:
         eval_diff_case(K, case, out, tags)
     for _ in range(n_ess):
         eval_ess_case(K, gen_ess_case(rng), out)
+    for _ in range(max(4, int(n_ess * MULTI_RATIO))):
+        eval_ess_case(K, gen_multi_case(rng), out)
     for _ in range(max(1, n_pairs // 25)):
         eval_seq_case(K, gen_seq_case(rng), out)
     eval_loop_cases(K, [gen_loop_case(rng) for _ in range(max(2, n_pairs // 12))], out)
@@ -1558,5 +1835,6 @@ def replay(ctx: Ctx, data: dict) -> None:
 
 
 WITNESS_NAMES = {"kopf_dev_touch_invisible", "marker_first_write_witness", "adoption_loses_last_handled_witness",
-                 "touch_field_cleaned", "extra_annotations_witness", "status_handler_touch_invisible", "multi_drs_own_key_invisible"}
+                 "touch_field_cleaned", "extra_annotations_witness", "status_handler_touch_invisible", "multi_drs_own_key_invisible",
+                 "multi_transitional_store_invisible", "multi_marker_restored_witness"}
 THEOREMS = [("Kopf.Props.C04_Witnesses" if n in WITNESS_NAMES else "Kopf.Props.C04", f"Kopf.C04.{n}") for n in THEOREM_NAMES]
